@@ -56,7 +56,8 @@ MANIFEST = {
 RULE = ('click: shapes x id kinds x histories as above; a state is '
         'non-trivial when at least one node is expanded.  codec: states of '
         'every compressed length in the swept range.')
-ASSUMPTIONS = ['node ids are unique within a tree', 'the root row is not '
+ASSUMPTIONS = ['node ids are unique among siblings (id kind short-dup: '
+               'only among siblings)', 'the root row is not '
                'displayed (dtml-tree shows the children of its object)']
 CASE_CPU_SECONDS = 600.0
 
@@ -136,19 +137,27 @@ def build_tree(shape, kind):
     if plain_leaves:
         kind = 'short'
 
-    def mk(sh, par):
+    dup = kind == 'short-dup'
+    if dup:
+        kind = 'short'
+
+    def mk(sh, par, sib):
         i = counter[0]
         counter[0] += 1
-        node = (Leaf if plain_leaves and not sh else TNode)(make_id(kind, i))
-        children[node.ident] = []
-        parent[node.ident] = par
-        for c in sh:
-            k = mk(c, node.ident)
+        # with dup ids a node id is unique among its siblings only
+        ident = make_id(kind, sib if dup else i)
+        node = (Leaf if plain_leaves and not sh else TNode)(ident)
+        key = (par or ()) + (ident,)
+        node.key = key
+        children[key] = []
+        parent[key] = par
+        for j, c in enumerate(sh):
+            k = mk(c, key, j)
             node.kids.append(k)
-            children[node.ident].append(k.ident)
+            children[key].append(k.key)
         return node
 
-    root = mk(shape, None)
+    root = mk(shape, None, 0)
     return root, children, parent
 
 
@@ -175,23 +184,21 @@ def descendants(v, children):
 
 
 def path_to(v, parent):
-    p = []
-    while v is not None:
-        p.append(v)
-        v = parent[v]
-    return p[::-1]
+    """a node key *is* the list of ids from the root down to the node"""
+    return list(v)
 
 
 def state_ids(state, root_id):
-    """expanded node ids recorded in a decoded cookie"""
+    """expanded node keys (id paths) recorded in a decoded cookie"""
     out = set()
 
-    def walk(lst):
+    def walk(lst, prefix):
         for sub in lst:
-            out.add(sub[0])
+            key = prefix + (sub[0],)
+            out.add(key)
             if len(sub) > 1:
-                walk(sub[1])
-    walk(state)
+                walk(sub[1], key)
+    walk(state, ())
     out.discard(root_id)
     return out
 
@@ -260,12 +267,13 @@ def judge_state(res, ctx, E, out, cookie, via):
     want = model_rows(root_id, children, E)
     events = []
     tag = ctx['ids']
-    if shown != want:
+    if shown != [k[-1] for k in want]:
         res.violate('rows', 'rows:%s' % tag,
-                    {'expanded': sorted(E), 'shown': shown, 'expected': want,
+                    {'expanded': sorted(E), 'shown': shown,
+                     'expected': [k[-1] for k in want],
                      'history': via}, sub)
         return None
-    for ident, links in rows:
+    for ident, (_shown_id, links) in zip(want, rows):
         # with assume_children a childless node is drawn with an expand
         # link until it has been expanded (and found empty)
         has_kids = bool(children[ident]) or (bool(ctx.get('opt')) and
@@ -411,7 +419,8 @@ def replay_history(res, ctx, root, history):
         if kind in ('expand_all', 'collapse_all'):
             ev = (kind, None, None)
         else:
-            match = [e for e in evs if e[0] == kind and e[1] == ident]
+            match = [e for e in evs if e[0] == kind and
+                     tuple(e[1]) == tuple(ident)]
             if not match:
                 res.violate('links', 'replay:link-missing',
                             {'history': history, 'at': [kind, ident]})
@@ -531,6 +540,10 @@ def cases(tier):
             # a tpValues attribute
             yield {'fam': 'click', 'shape': sh, 'ids': 'short-leafobj',
                    'literal': 3}
+        if nodes <= 6:
+            # node ids that are unique among siblings only
+            yield {'fam': 'click', 'shape': sh, 'ids': 'short-dup',
+                   'literal': 3}
         if nodes <= (5 if tier == 'quick' else 6):
             # option assume_children: every node carries a link; expanding
             # a childless node only records it in the state
@@ -552,7 +565,7 @@ def run(case):
         res.nontrivial = True
         return res
     root, children, parent = build_tree(case['shape'], case['ids'])
-    ctx = {'root_id': root.ident, 'children': children, 'parent': parent,
+    ctx = {'root_id': root.key, 'children': children, 'parent': parent,
            'shape': case['shape'], 'ids': case['ids'],
            'opt': case.get('opt', '')}
     if 'history' in case:
@@ -581,6 +594,8 @@ def finalize(tier, agg):
     # model self-test
     ch = {'r': ['a', 'b'], 'a': ['a1'], 'a1': [], 'b': []}
     if model_rows('r', ch, {'a'}) != ['a', 'a1', 'b'] or \
-            descendants('r', ch) != {'a', 'a1', 'b'}:
+            descendants('r', ch) != {'a', 'a1', 'b'} or \
+            state_ids([['r', [['a', [['a']]], ['b']]]], ('r',)) != {
+                ('r', 'a'), ('r', 'a', 'a'), ('r', 'b')}:
         raise HarnessFault('self-test: tree model')
     return {'codec_lengths': c.get('codec-lengths', 0)}
